@@ -1896,7 +1896,14 @@ impl Connection {
 
         let mut result = None;
         for space in SpaceId::iter() {
-            if !self.spaces[space].has_in_flight() {
+            // Handshake data that was declared lost and is waiting to be retransmitted counts like
+            // in-flight data here: if it is held back by the congestion window while only 1-RTT
+            // packets (which the peer cannot acknowledge before the handshake completes) are in
+            // flight, nothing else would ever arm this timer again.
+            let handshake_data_queued = space != SpaceId::Data
+                && self.spaces[space].crypto.is_some()
+                && !self.spaces[space].pending.is_empty(&self.streams);
+            if !self.spaces[space].has_in_flight() && !handshake_data_queued {
                 continue;
             }
             if space == SpaceId::Data {
